@@ -1,10 +1,201 @@
 /-
   EG.Driver.Text — model side of the `text.*` correspondence streams (harness/src/m_text.rs).
+
+  Streams (formats documented in m_text.rs):
+    text.layout  <fontspec> <bl> <al> <lhk> <lhv> <tc> <bg> <ul> <st> <x> <y> <cps>
+                 -> next=<x,y> bb=<rect> px=<n>:<hash>:<extent>|-
+    text.tr      <the same tokens> <dx> <dy>     -> the same for `translate(d)` + ` mut=same|diff`
+    text.measure <fontspec> <bl> <tc> <bg> <ul> <st> <x> <y> <cps>
+                 -> bb=<rect> mnext=<x,y> dnext=<x,y> lh=<n>
+    text.chain   <fontspec> <bl> <al> <tc> <bg> <ul> <st> <x> <y> <cps1> <cps2>
+                 -> n1=<x,y> n2=<x,y> n12=<x,y>
+  The picture (`px`) is produced from the call list of `TextLayout.draw` (the `Font.drawString` model) only
+  when no pixel depends on a glyph bitmap (text colour == background colour, or neither set); the atlas
+  handed to the model is then irrelevant (all-off here).
 -/
 import EG.Driver.Util
+import EG.Model.TextLayout
 namespace EG.Driver
-open EG
+open EG EG.Font EG.TextLayout
 
-def handleText (_stream : String) (_t : Toks) : Option String := none
+private def tlFields (s : String) : List String := s.splitOn ":"
+
+/-- `b:<fid>` or `c:<cw>:<ch>:<sp>:<bl>:<ulOff>:<ulH>:<stOff>:<stH>` (harness-built font: mapping
+`"\0 ~"`, replacement 31, atlas of 16 x 6 cells). -/
+private def tlParseFont (s : String) : Option MonoFont :=
+  match tlFields s with
+  | ["b", fid] =>
+    match Generated.fontTable[parseNat fid]? with
+    | some r => some (fontOfRec r)
+    | none => none
+  | ["c", cw, ch, sp, bl, uo, uh, so, sh] =>
+    let m : StrMapping := ⟨[0, 32, 126], 31⟩
+    some { imgW := 16 * parseNat cw, imgH := 6 * parseNat ch, cw := parseNat cw, ch := parseNat ch,
+           spacing := parseNat sp, baseline := parseNat bl, ulOff := parseNat uo, ulH := parseNat uh,
+           stOff := parseNat so, stH := parseNat sh, index := m.index }
+  | _ => none
+
+private def tlOptColor (s : String) : Option Color := if s == "-" then none else some (parseNat s)
+
+private def tlDeco (s : String) : DecoColor :=
+  if s == "n" then .none else if s == "t" then .textColor else .custom (parseNat s)
+
+private def tlBaseline : Nat → Baseline
+  | 0 => .top
+  | 1 => .bottom
+  | 2 => .middle
+  | _ => .alphabetic
+
+private def tlAlignment : Nat → Alignment
+  | 0 => .left
+  | 1 => .center
+  | _ => .right
+
+private def tlStyle (t : Toks) : Style × Toks :=
+  let (tc, t) := t.str
+  let (bg, t) := t.str
+  let (ul, t) := t.str
+  let (st, t) := t.str
+  (⟨tlOptColor tc, tlOptColor bg, tlDeco ul, tlDeco st⟩, t)
+
+/-- the tokens of a layout op after the fontspec -/
+private def tlParseLayout (t : Toks) : Text × Toks :=
+  let (bl, t) := t.nat
+  let (al, t) := t.nat
+  let (lhk, t) := t.str
+  let (lhv, t) := t.nat
+  let (st, t) := tlStyle t
+  let (pos, t) := t.pt
+  let (cps, t) := t.natList
+  let lh : LineHeight := if lhk == "p" then .pixels lhv else .percent lhv
+  (⟨cps, pos, st, ⟨tlAlignment al, tlBaseline bl, lh⟩⟩, t)
+
+private def tlDetermined (st : Style) : Bool :=
+  match st.textColor, st.bgColor with
+  | some a, some b => a == b
+  | none, none => true
+  | _, _ => false
+
+/-! ### Rasterising fill calls into a canvas (array of `colour + 1`, 0 = untouched) -/
+
+private def tlCallArea : Call → Option Rect
+  | .fillContiguous a _ => if a.isZeroSized then none else some a
+  | .fillSolid a _ => if a.isZeroSized then none else some a
+  | _ => none
+
+/-- (min x, min y, max x + 1, max y + 1) over all non-empty call areas -/
+private def tlEnvelope (calls : List Call) : Option (Int × Int × Int × Int) :=
+  calls.foldl (fun acc c =>
+    match tlCallArea c with
+    | none => acc
+    | some a =>
+      let x1 := a.tl.x + (a.size.w : Int)
+      let y1 := a.tl.y + (a.size.h : Int)
+      match acc with
+      | none => some (a.tl.x, a.tl.y, x1, y1)
+      | some (ax, ay, bx, by') => some (min ax a.tl.x, min ay a.tl.y, max bx x1, max by' y1)) none
+
+private def tlPaintRow (cv : Array Nat) (base w : Nat) (col : Nat → Nat) (row : Nat) : Array Nat :=
+  (List.range w).foldl (fun cv i => cv.set! (base + i) (col (row * w + i) + 1)) cv
+
+private def tlPaint (x0 y0 : Int) (W : Nat) (cv : Array Nat) : Call → Array Nat
+  | .fillContiguous a cs =>
+    let arr := cs.toArray
+    let n := arr.size
+    (List.range a.size.h).foldl (fun cv r =>
+      (List.range a.size.w).foldl (fun cv i =>
+        let k := r * a.size.w + i
+        if k < n then cv.set! (((a.tl.y - y0).toNat + r) * W + (a.tl.x - x0).toNat + i) (arr[k]! + 1) else cv) cv) cv
+  | .fillSolid a c =>
+    (List.range a.size.h).foldl (fun cv r =>
+      tlPaintRow cv (((a.tl.y - y0).toNat + r) * W + (a.tl.x - x0).toNat) a.size.w (fun _ => c) r) cv
+  | _ => cv
+
+private def tlP31 : UInt64 := 2147483647
+
+/-- `<n>:<hash>:<extent>` of the picture a list of fill calls leaves (same text as `fmt_px` of the harness). -/
+private def tlFmtPx (calls : List Call) : String :=
+  match tlEnvelope calls with
+  | none => "0:0:-"
+  | some (x0, y0, x1, y1) =>
+    let W := (x1 - x0).toNat
+    let H := (y1 - y0).toNat
+    let cv := calls.foldl (tlPaint x0 y0 W) (Array.replicate (W * H) 0)
+    -- scan row-major: count, hash, extent
+    let init : Nat × UInt64 × Option (Int × Int × Int × Int) := (0, 0, none)
+    let (cnt, h, ext) := (List.range H).foldl (fun acc r =>
+      (List.range W).foldl (fun (acc : Nat × UInt64 × Option (Int × Int × Int × Int)) i =>
+        let v := cv[r * W + i]!
+        if v == 0 then acc
+        else
+          let (cnt, h, ext) := acc
+          let x := x0 + (i : Int)
+          let y := y0 + (r : Int)
+          let t : Nat := ((y + 1048576).toNat * 2097152 + (x + 1048576).toNat) * 65536 + v
+          let h' := (h * 1000003 + (UInt64.ofNat t) % tlP31) % tlP31
+          let ext' := match ext with
+            | none => some (x, y, x, y)
+            | some (a, b, c, d) => some (min a x, min b y, max c x, max d y)
+          (cnt + 1, h', ext')) acc) init
+    let e := match ext with
+      | none => "-"
+      | some (a, b, c, d) => s!"{a},{b},{c - a + 1},{d - b + 1}"
+    s!"{cnt}:{h.toNat}:{e}"
+
+private def tlNoAtlas : Pt → Bool := fun _ => false
+
+private def tlLayoutResult (f : MonoFont) (tx : Text) : String :=
+  let (calls, next) := draw f tlNoAtlas tx
+  let px := if tlDetermined tx.style then tlFmtPx calls else "-"
+  s!"next={fmtPt next} bb={fmtRect (boundingBox f tx)} px={px}"
+
+def handleText (stream : String) (t : Toks) : Option String :=
+  match stream with
+  | "text.layout" =>
+    let (spec, t) := t.str
+    match tlParseFont spec with
+    | none => some "nofont"
+    | some f =>
+      let (tx, _) := tlParseLayout t
+      some (tlLayoutResult f tx)
+  | "text.tr" =>
+    let (spec, t) := t.str
+    match tlParseFont spec with
+    | none => some "nofont"
+    | some f =>
+      let (tx, t) := tlParseLayout t
+      let (d, _) := t.pt
+      let moved := tx.translate d
+      let same := if tx.translateMut d = moved then "same" else "diff"
+      some s!"{tlLayoutResult f moved} mut={same}"
+  | "text.measure" =>
+    let (spec, t) := t.str
+    match tlParseFont spec with
+    | none => some "nofont"
+    | some f =>
+      let (bl, t) := t.nat
+      let (st, t) := tlStyle t
+      let (pos, t) := t.pt
+      let (cps, _) := t.natList
+      let m := measureString f st cps pos (tlBaseline bl)
+      let dn := (f.drawString tlNoAtlas st cps pos (tlBaseline bl)).2
+      some s!"bb={fmtRect m.bbox} mnext={fmtPt m.next} dnext={fmtPt dn} lh={fontLineHeight f}"
+  | "text.chain" =>
+    let (spec, t) := t.str
+    match tlParseFont spec with
+    | none => some "nofont"
+    | some f =>
+      let (bl, t) := t.nat
+      let (al, t) := t.nat
+      let (st, t) := tlStyle t
+      let (pos, t) := t.pt
+      let (s1, t) := t.natList
+      let (s2, _) := t.natList
+      let ts : TextStyle := ⟨tlAlignment al, tlBaseline bl, .percent 100⟩
+      let n1 := (draw f tlNoAtlas ⟨s1, pos, st, ts⟩).2
+      let n2 := (draw f tlNoAtlas ⟨s2, n1, st, ts⟩).2
+      let n12 := (draw f tlNoAtlas ⟨s1 ++ s2, pos, st, ts⟩).2
+      some s!"n1={fmtPt n1} n2={fmtPt n2} n12={fmtPt n12}"
+  | _ => none
 
 end EG.Driver
